@@ -34,6 +34,23 @@ def core():
     D.append(Def('eoi_dollar', variants=[
         Var('AEnd', [R('a$', prio=3)]), Var('A', [T('a')]), Var('B', [R('b+')])], tags=('look', 'quick')))
     D.append(Def('eoi_only', variants=[Var('AEnd', [R('a$')]), Var('Bs', [R('b+c$')]), Var('B', [T('b')])], tags=('look', 'quick')))
+    # --- round 5: counted repetitions and default priority; a root state that is a duplicate of a mid-token state;
+    # separated lists whose mid-token state is merged into the root
+    D.append(Def('prio_counted', skips=[R('-{2}')], variants=[
+        Var('Year', [R('[0-9]{4}')]), Var('Hex', [R('[0-9a-f]+', prio=5)]), Var('Tag', [R('#{3}')]), Var('Hs', [R('#+', prio=4)]),
+        Var('Dash', [R('-+', prio=3)])], tags=('quick', 'prio')))
+    D.append(Def('prio_counted_b', utf8=False, variants=[
+        Var('Ff', [R(b'\xFF{2,}')]), Var('Hi', [R(b'[\xF0-\xFF]+', prio=3)]), Var('Ab', [R(b'(ab){2,3}')]),
+        Var('W', [R(b'[a-c]+', prio=7)])], tags=('quick', 'prio', 'bytes')))
+    D.append(Def('root_dup', variants=[Var('A', [R('(ab)*a')]), Var('C', [R('(ab)*c')]), Var('Cd', [R('(ab)*cd')])],
+                 tags=('quick', 'loop')))
+    D.append(Def('root_dup_digits', variants=[Var('Num', [R('([0-9]_)*[0-9]')]), Var('Hex', [R('([0-9]_)*x[0-9a-f]+')])],
+                 tags=('quick', 'loop')))
+    D.append(Def('root_dup_skip', skips=[R('([0-9]_)* +')], variants=[
+        Var('Num', [R('([0-9]_)*[0-9]')]), Var('Hex', [R('([0-9]_)*x[0-9a-f]+')])], tags=('quick', 'loop')))
+    D.append(Def('sep_list', variants=[Var('Number', [R('[0-9](\\.[0-9])*')])], tags=('quick', 'loop')))
+    D.append(Def('sep_list2', variants=[Var('C', [R('(c;)*c')]), Var('D', [R('(c;)*d')])], tags=('quick', 'loop')))
+    D.append(Def('sep_list_ws', skips=[R(' +')], variants=[Var('Number', [R('[0-9](\\.[0-9])*')])], tags=('loop',)))
     D.append(Def('word_boundary', utf8=False, variants=[
         Var('If', [R(rb'if\b')]), Var('Id', [R(rb'[a-z]+', prio=1)]), Var('Sp', [T(b' ')])], tags=('look', 'quick', 'loop')))
     D.append(Def('look_str', skips=[R(' +')], variants=[
@@ -166,6 +183,10 @@ def reject_core():
     D.append(Def('rej_nonutf8_skip', skips=[R(b'\xC2')], variants=[Var('A', [R('[a-z]+')])], expect='reject', tags=('nonutf8',)))
     D.append(Def('rej_nonutf8_skip2', skips=[R('(?-u:[\\x80-\\xBF])+')], variants=[Var('A', [R('[a-z]+')])], expect='reject',
                  tags=('nonutf8',)))
+    D.append(Def('rej_skip_tie', skips=[R('[ \\t\\n]'), R('\\n')], variants=[Var('W', [R('[a-z]+')])], expect='reject', tags=('tie',)))
+    D.append(Def('rej_skip_tie2', skips=[T(' '), R(' ')], variants=[Var('W', [R('[a-z]+')])], expect='reject', tags=('tie',)))
+    D.append(Def('rej_skip_tie3', skips=[R('#+', prio=7), R('#{2}', prio=7)], variants=[Var('H', [T('#')])], expect='reject',
+                 tags=('tie',)))
     D.append(Def('rej_undef_sub', variants=[Var('A', [R('a(?&nope)b')])], expect='reject', tags=('subpat',)))
     D.append(Def('rej_greedy_dot', variants=[Var('A', [R('a.*')])], expect='reject', tags=('greedy',)))
     return D
